@@ -12,6 +12,7 @@ pub mod c04;
 pub mod c05;
 pub mod c06;
 pub mod c08;
+pub mod c11;
 pub mod c14;
 pub mod c15;
 pub mod c17;
@@ -26,6 +27,7 @@ pub fn by_id(id: &str) -> Option<Box<dyn Monitor>> {
         "C05" => Box::new(c05::C05),
         "C06" => Box::new(c06::C06),
         "C08" => Box::new(c08::C08),
+        "C11" => Box::new(c11::C11),
         "C14" => Box::new(c14::C14),
         "C15" => Box::new(c15::C15),
         "C18" => Box::new(c18::C18),
